@@ -854,11 +854,29 @@ class BG:
         self.emit("bchk %s" % idx.name)
 
 
+def add_plane_checks(g):
+    """after every dump of a 64-bit index also compare its bit planes with the plane-level model (Impl/BSI.lean)"""
+    is64 = set()
+    out = []
+    for l in g.lines:
+        t = l.split(" ")
+        if t[0] == "bnew" and len(t) >= 3:
+            (is64.add if t[2] == "64" else is64.discard)(t[1])
+        elif t[0] in ("bclone", "bretainset", "bmarsh", "bstream") and len(t) >= 3:
+            (is64.add if t[2] in is64 else is64.discard)(t[1])
+        out.append(l)
+        if t[0] == "bdump" and len(t) == 2 and t[1] in is64:
+            out.append("bplanes %s" % t[1])
+            g.count("bsi:bplanes")
+    g.lines[:] = out
+
+
 @suite("bsi")
 def _bsi(g, scale):
     b = BG(g, env_avoid())
     for _ in range(int(40 * scale)):
         b.episode_updates(g.r.choice([8, 15, 25]))
+    add_plane_checks(g)
 
 
 @suite("bsiq")
@@ -866,6 +884,7 @@ def _bsiq(g, scale):
     b = BG(g, env_avoid())
     for _ in range(int(30 * scale)):
         b.episode_queries(g.r.choice([15, 30, 45]))
+    add_plane_checks(g)
 
 
 @suite("bsi-clean")
